@@ -107,6 +107,10 @@ def eval_cond(node, sigma, terms, facts=None):
 class Hooks:
     """Customisation points for `outcomes`."""
 
+    def __init__(self, allow_def=()):
+        # spellings whose (single) defining assignment lies inside the tabulated statements
+        self.allow_def = set(allow_def)
+
     def event(self, stmt):
         """Return a short string if the statement is an event of interest, else None."""
         return None
@@ -115,7 +119,7 @@ class Hooks:
         """True if the statement re-binds a tracked spelling (makes the tabulation unsound)."""
         for n in ast.walk(stmt):
             if isinstance(n, (ast.Name, ast.Attribute, ast.Subscript)) and isinstance(getattr(n, 'ctx', None), ast.Store):
-                if U(n) in terms.sp:
+                if U(n) in terms.sp and U(n) not in self.allow_def:
                     return True
         return False
 
